@@ -36,6 +36,8 @@ type Step struct {
 type Scenario struct {
 	Pre   string `json:"pre"`
 	Steps []Step `json:"steps"`
+	// HoldHandle: an end whose negotiation returned a fresh connection parks where handlePeer starts; step "Handle" lets it go on
+	HoldHandle bool `json:"holdhandle"`
 }
 
 type Obs struct {
@@ -375,6 +377,12 @@ func (r *run) step(st Step) Obs {
 			serr = fmt.Errorf("%s caches %s after the reap, specification says %s", st.P, r.observe().Cache[st.P], want)
 		}
 		time.Sleep(time.Millisecond) // reapPeer closes after deleting
+	case "Handle":
+		d := dirOf(st.P, st.K)
+		if _, serr = r.g.waitPark(st.P, d, "reuse:handle", gateWait); serr == nil {
+			r.g.resume(st.P, d)
+			time.Sleep(5 * time.Millisecond) // the end registers / starts its handlers
+		}
 	case "Notice":
 		if c := r.objs[st.K][st.P]; c != nil {
 			c.CloseWithError(idleCode, "verif: idle timeout")
@@ -447,6 +455,7 @@ func runScenario(sc Scenario) *Result {
 		r.issue("setup: %v", err)
 		return r.res
 	}
+	r.g.holdHandle.Store(sc.HoldHandle)
 	for _, st := range sc.Steps {
 		o := r.step(st)
 		r.res.Steps = append(r.res.Steps, o)
